@@ -42,7 +42,8 @@ CALLDEP_T = consts(0, 0, 2, 0, 2, 4, [1], [0], [1], dep=2)
 MIXPAIR_Q = consts(1, 1, 1, 0, 2, 4, [1], [0], [1], feeops=False, entries=("msg", "evm"), depkinds=("dep", "depc"))   # same family on a module-owned ERC-20 pair (bridge denomination + base coin)
 MIX_Q = consts(1, 1, 1, 0, 2, 4, [1], [0], [1])
 POOL_T = consts(2, 2, 0, 2, 2, 3, [1, 2], [0, 2], [1, 3])
-CALL_T = consts(0, 0, 2, 1, 3, 4, [1], [0], [1], kc=2)
+CALL_T = consts(0, 0, 2, 1, 3, 4, [1], [0], [1], kc=2)    # 355k states: model-checked only (its graph, 3.5M abstract states, does not fit the replay shards)
+CALL_TG = consts(0, 0, 2, 0, 3, 4, [1], [0], [1], kc=2)   # 71k states: the thorough replay family for bridge calls
 MIX_T = consts(2, 1, 1, 1, 2, 4, [1], [0], [1])
 
 MC = [
@@ -63,7 +64,7 @@ GEN = [
     cfg("mixpairX", ["thorough"], MIXPAIR_Q, shards=16, token="module"),
     cfg("calldepX", ["thorough"], CALLDEP_Q, shards=8),
     cfg("poolT", ["thorough"], POOL_T, shards=16),
-    cfg("callT", ["thorough"], CALL_T, shards=16),
+    cfg("callT", ["thorough"], CALL_TG, shards=16),
     cfg("mixX", ["thorough"], MIX_Q, shards=16, chains=("eth", "bsc")),   # MIX_T (416k states) is model-checked only: its graph does not fit the replay shards' memory
 ]
 
